@@ -14,7 +14,7 @@ partial def showExp : Exp → String
   | .nil l => s!"(nil {L l})" | .tru l => s!"(true {L l})" | .fls l => s!"(false {L l})"
   | .vararg l => s!"(va {L l})"
   | .int v l => s!"(int {v} {L l})"
-  | .flt l => s!"(flt {L l})"
+  | .flt _ l => s!"(flt {L l})"
   | .str s l => s!"(str {H s} {L l})"
   | .unop op e l => s!"(un {op.toNat} {showExp e} {L l})"
   | .binop op a b l => s!"(bin {op.toNat} {showExp a} {showExp b} {L l})"
